@@ -1970,7 +1970,7 @@ V(id='c39-nint-half-integer-rounds-down', prop='C39', file='mpmath/ctx_mp.py',
 V(id='c39-nint-rational-distance-from-floor', prop='C39', file='mpmath/ctx_mp.py',
   old="            d = bitcount(abs(p-n*q)) - bitcount(q)", new="            d = bitcount(r) - bitcount(q)", expect='fire:N-R6:nint_distance')
 V(id='c39-nint-small-magnitude-threshold', prop='C39', file='mpmath/ctx_mp.py',
-  old="        if mag < 0:\n            n = 0\n            re_dist = mag", new="        if mag < 1:\n            n = 0\n            re_dist = mag", expect='fire:N-R6:nint_distance')
+  old="        if man and mag < 0:\n            n = 0\n            re_dist = mag", new="        if man and mag < 1:\n            n = 0\n            re_dist = mag", expect='fire:N-R6:nint_distance')
 
 # ---- C08 W-R5: probe on the decimal side is no probe ----
 V(id='c08-probe-on-decimal-number', prop='C08', file='mpmath/libmp/libmpf.py',
@@ -2181,3 +2181,25 @@ V(id='c13-csqrt-modulus-without-guard-bits', prop='C13', file='mpmath/libmp/libm
 V(id='c13-csqrt-modulus-without-guard-bits-positive-branch', prop='C13', file='mpmath/libmp/libmpc.py',
   old="        t  = mpf_add(mpc_abs((a, b), wp), a, wp)", new="        t  = mpf_add(mpc_abs((a, b), prec), a, wp)",
   expect='fire:B-R9:mpc_sqrt')
+
+# ---- C39 N-R2 nan classes, N-R7, N-R8 (fixes 7e0011d, 54ed16b, ed9414b) ----
+V(id='c39-nint-distance-magnitude-before-mantissa', prop='C39', file='mpmath/ctx_mp.py',
+  old="        if man and mag < 0:\n            n = 0\n            re_dist = mag", new="        if mag < 0:\n            n = 0\n            re_dist = mag",
+  expect='fire:N-R7:nint_distance')
+V(id='c39-nint-distance-imag-special-accepted', prop='C39', file='mpmath/ctx_mp.py',
+  old="            elif im == fzero:\n                im_dist = ctx.ninf\n            else:\n                raise ValueError(\"requires a finite number\")",
+  new="            else:\n                im_dist = ctx.ninf", expect='fire:N-R7:nint_distance')
+V(id='c39-mag-complex-nan-order-dependent', prop='C39', file='mpmath/ctx_mp_python.py',
+  old="            if r == fnan or i == fnan:\n                return ctx.nan\n", new="", expect='fire:N-R2:mag')
+V(id='c39-mag-complex-nan-real-only', prop='C39', file='mpmath/ctx_mp_python.py',
+  old="            if r == fnan or i == fnan:\n                return ctx.nan\n", new="            if r == fnan:\n                return ctx.nan\n",
+  expect='fire:N-R2:mag')
+V(id='c39-mpq-pow-negative-denominator', prop='C39', file='mpmath/rational.py',
+  old="                    # keep the denominator positive\n                    if b < 0:\n                        a, b = -a, -b\n", new="",
+  expect='fire:N-R8:__pow__')
+V(id='c39-mpq-neg-flips-denominator', prop='C39', file='mpmath/rational.py',
+  old="    def __neg__(s):\n        a, b = s._mpq_\n        v = new(mpq)\n        v._mpq_ = -a, b", new="    def __neg__(s):\n        a, b = s._mpq_\n        v = new(mpq)\n        v._mpq_ = a, -b",
+  expect='fire:N-R8:__neg__')
+V(id='c39-benign-mpq-pow-sign-first', prop='C39', file='mpmath/rational.py',
+  old="                    a, b, t = b, a, -t\n                    # keep the denominator positive\n                    if b < 0:\n                        a, b = -a, -b\n",
+  new="                    t = -t\n                    a, b = b, a\n                    if b < 0:\n                        a, b = -a, -b\n", expect='silent')
